@@ -48,10 +48,6 @@ Definition qsort_check (cs : list qsort_case) : list (N * N) :=
 Definition asort_case := (N * ores * list app * list (list N * list N))%type.
 Definition dummyA : app := mkA 0 None None 0 0.
 
-Definition share_ok (s : f64) : bool := negb (f_is_nan s) && negb (f_ltb s f_zero).
-Definition app_ok (which : N) (g : ores) (a : app) : bool :=
-  if (which <? 2)%N then forallb share_ok (GetShares (a_alloc a) g) else true.
-
 Definition asort_check1 (c : asort_case) : list N :=
   let '(which, g, apps, perms) := c in
   let lt := app_lt which g in
